@@ -31,6 +31,8 @@ type HTTPCase struct {
 	ClientEnds string `json:"clientEnds,omitempty"`
 	AfterNext  int    `json:"afterNext,omitempty"`
 	// multipart only: MultipartMixed.DeliveryTimeout (how long incremental payloads are batched), 0 = default
+	// websocket only: after the operation ended, start this one on the SAME connection under the SAME id
+	Then              string `json:"then,omitempty"`
 	DeliveryTimeoutMs int  `json:"deliveryTimeoutMs,omitempty"`
 	FullBody          bool `json:"fullBody,omitempty"` // report the body whatever its size
 }
@@ -222,7 +224,21 @@ func RunWS(es graphql.ExecutableSchema, c HTTPCase) HTTPResult {
 			var typ string
 			json.Unmarshal(m["type"], &typ)
 			out = append(out, typ+":"+string(m["payload"]))
-			if typ == "complete" || typ == "error" {
+			if typ == "error" {
+				// gqlgen follows the error frame of a recovered panic with a complete frame: take it if it comes
+				conn.SetReadDeadline(time.Now().Add(300 * time.Millisecond))
+				var m2 map[string]json.RawMessage
+				if err := conn.ReadJSON(&m2); err == nil {
+					var t2 string
+					json.Unmarshal(m2["type"], &t2)
+					out = append(out, t2+":"+string(m2["payload"]))
+				} else if _, ok := err.(*websocket.CloseError); ok {
+					res.Dropped = true
+				}
+				conn.SetReadDeadline(time.Now().Add(to))
+				break
+			}
+			if typ == "complete" {
 				break
 			}
 			if typ == "next" {
@@ -236,6 +252,29 @@ func RunWS(es graphql.ExecutableSchema, c HTTPCase) HTTPResult {
 						conn.UnderlyingConn().Close()
 					}
 					res.Dropped = true
+					break
+				}
+			}
+		}
+		if c.Then != "" && !res.Dropped {
+			// the id is free again once the operation has ended, however it ended
+			conn.WriteJSON(map[string]any{"id": "1", "type": "subscribe", "payload": map[string]any{"query": c.Then}})
+			out = append(out, "--then--")
+			for {
+				var m map[string]json.RawMessage
+				if err := conn.ReadJSON(&m); err != nil {
+					if ce, ok := err.(*websocket.CloseError); ok {
+						out = append(out, fmt.Sprintf("closed:%d %s", ce.Code, ce.Text))
+					} else {
+						out = append(out, "read-error:"+err.Error())
+					}
+					res.Dropped = true
+					break
+				}
+				var typ string
+				json.Unmarshal(m["type"], &typ)
+				out = append(out, typ+":"+string(m["payload"]))
+				if typ == "complete" || typ == "error" || typ == "connection_error" {
 					break
 				}
 			}
